@@ -105,7 +105,7 @@ func c09Mark(args []any) []any {
 	var pcs [1]uintptr
 	runtime.Callers(2, pcs[:])
 	fr, _ := runtime.CallersFrames(pcs[:]).Next()
-	c09APICaller = callerInfo{pcs[0], slog.Safety(fr.File), fr.Line, fr.Function}
+	c09APICaller = callerInfo{pcs[0], slog.Safety(fr.File), fr.Line, fr.Function, fr.File}
 	return args
 }
 
